@@ -163,6 +163,7 @@ Proof.
   exists hb, x, T, tbl. split; [exact Kb|]. split; [exact Kw|]. split; [exact Km|]. split; [exact Eg|]. split; [exact Hres|].
   destruct (result_sound (ord_of tbl) (ord_of_in tbl) (i_host inp) hb rc x T g Hwh Kb Kw Hwr Km Eg Hres) as (A1 & A2 & A3 & A4).
   destruct (result_changed_bonds (ord_of tbl) (ord_of_in tbl) hb rc x T g Kw Hwr Km Eg) as (C1 & C2).
+  destruct (glued_atoms hb rc x T Hwr Km Eg) as (G1 & G2).
   repeat (split; [assumption|]). exact C2.
 Qed.
 
